@@ -86,6 +86,12 @@ where
 {
     Ok(HttpResponseUpdatedNoContent())
 }
+async fn h_err<E>(_rq: RequestContext<()>) -> Result<HttpResponseUpdatedNoContent, E>
+where
+    E: dropshot::HttpResponseError + JsonSchema + Serialize + Send + Sync + 'static,
+{
+    unreachable!("corpus endpoints are never served")
+}
 async fn h_headers<H>(
     _rq: RequestContext<()>,
 ) -> Result<HttpResponseHeaders<HttpResponseUpdatedNoContent, H>, HttpError>
@@ -157,6 +163,33 @@ impl Reg {
             name,
             class,
             vec![json!({"site": "response_body", "method": "get", "path": path, "status": "200"})],
+        );
+    }
+
+    /// E as the error type of `GET /e/<name>`: its schema is published as the body of
+    /// the operation's 4XX / 5XX responses
+    pub fn error<E>(&mut self, name: &str, class: &str)
+    where
+        E: dropshot::HttpResponseError + JsonSchema + Serialize + Send + Sync + 'static,
+    {
+        let path = format!("/e/{name}");
+        self.api
+            .register(ApiEndpoint::new(
+                format!("e_{name}"),
+                h_err::<E>,
+                Method::GET,
+                "application/json",
+                &path,
+                ApiEndpointVersions::All,
+            ))
+            .unwrap_or_else(|e| panic!("register error {name}: {e:?}"));
+        self.entry::<E>(
+            &format!("{name}@error"),
+            class,
+            vec![
+                json!({"site": "error_body", "method": "get", "path": path, "status": "4XX"}),
+                json!({"site": "error_body", "method": "get", "path": path, "status": "5XX"}),
+            ],
         );
     }
 
@@ -958,9 +991,56 @@ pub fn build_same_named_mixed() -> Reg {
     r
 }
 
+macro_rules! error_type {
+    ($name:ident { $($f:ident : $t:ty = $v:expr),* }) => {
+        #[derive(Debug, Serialize, JsonSchema)]
+        pub struct $name { $(pub $f: $t),* }
+        impl std::fmt::Display for $name {
+            fn fmt(&self, f: &mut std::fmt::Formatter) -> std::fmt::Result {
+                f.write_str(stringify!($name))
+            }
+        }
+        impl From<HttpError> for $name {
+            fn from(_: HttpError) -> Self {
+                $name { $($f: $v),* }
+            }
+        }
+        impl dropshot::HttpResponseError for $name {
+            fn status_code(&self) -> dropshot::ErrorStatusCode {
+                dropshot::ErrorStatusCode::INTERNAL_SERVER_ERROR
+            }
+        }
+    };
+}
+pub mod err_a {
+    use super::*;
+    error_type!(ApiError { message: String = String::new(), request_id: String = String::new() });
+    error_type!(OnlyHere { a: u8 = 0 });
+}
+pub mod err_b {
+    use super::*;
+    error_type!(ApiError { code: u32 = 7, retry_after_secs: Option<u16> = None, kind: UnitEnum = d_enum() });
+}
+pub mod err_c {
+    use super::*;
+    error_type!(ApiError { code: String = String::new() });
+}
+
+/// user-defined error types, among them three of the same name from different modules
+pub fn build_error_types() -> Reg {
+    let mut r = Reg::new("error-types");
+    r.error::<err_a::ApiError>("a_api_error", "error|same-name");
+    r.error::<err_b::ApiError>("b_api_error", "error|same-name");
+    r.error::<err_a::OnlyHere>("a_only_here", "error");
+    r.error::<err_c::ApiError>("c_api_error", "error|same-name");
+    r.error::<err_b::ApiError>("b_api_error_again", "error|same-name");
+    r
+}
+
 pub fn all() -> Vec<Reg> {
     vec![
         build_main(),
+        build_error_types(),
         build_same_named_params(),
         build_same_named_bodies(),
         build_same_named_mixed(),
